@@ -226,7 +226,7 @@ const OPS2: &[&str] = &["<=", ">=", "!=", "=>", "--", "<>", "==", "->", "=<", "<
 const PUNCT: &[&str] = &["(", ")", "[", "]", "{", "}", ",", ";", ":", "::"];
 const SPACES: &[&str] = &[" ", " ", " ", "  ", "\t", "\n", "\r\n", "\n\n", "\r", "\u{a0}", "\u{2028}", "\u{85}", "\u{3000}", "\u{b}", "\u{c}", "\u{200b}", "\u{feff}"];
 const STR_BODIES: &[&str] = &["", "a", "hello world", "it\\'s", "\\\\", "a\\nb", "é", "-- not a comment", "a\nb", "\\", "'", "\\'", "x\\", "SELECT", "1.5", "\u{a0}", "a''b", "\\a\\b", "\r\n"];
-const COMMENTS: &[&str] = &["--", "-- c", "--c\n", "-- select 'x' \\ \n", "--\n", "-- é\r\n", "----\n", "--'\n", "-- a -- b\n", "--\\\n"];
+const COMMENTS: &[&str] = &["--", "-- c", "--c\n", "-- select 'x' \\ \n", "--\n", "-- é\r\n", "----\n", "--'\n", "-- a -- b\n", "--\\\n", "-- a; b c\n", "--;x\n", "-- 1.2.3 (\n"];
 
 fn pk<'a>(rng: &mut Rng, xs: &[&'a str]) -> &'a str { xs[rng.below(xs.len())] }
 
